@@ -158,6 +158,8 @@ pub trait ScopeOps {
     fn x_scoped(&mut self, mode: u8, f: &mut dyn FnMut(&mut dyn ScopeOps));
     fn x_aligned(&mut self, n: usize, f: &mut dyn FnMut(&mut dyn ScopeOps));
     fn x_scoped_aligned(&mut self, n: usize, f: &mut dyn FnMut(&mut dyn ScopeOps));
+    /// `self.by_value().with_settings::<MIN_ALIGN = n>()` (n ≥ current minimum alignment, arena allocated)
+    fn x_by_value_with_settings(&mut self, n: usize, f: &mut dyn FnMut(&mut dyn ScopeOps));
     /// `f(claimant, original)`; both views are usable while the claim guard lives
     fn x_claim(&mut self, f: &mut dyn FnMut(&mut dyn ScopeOps, &dyn ScopeOps));
     /// second `claim()` on an already claimed handle: must panic
@@ -280,6 +282,7 @@ impl<'a, A, const MA: usize, const UP: bool, const GA: bool, const DE: bool, con
 where
     A: TestBase + BaseAllocator<Bool<GA>>,
     MinimumAlignment<MA>: SupportedMinimumAlignment,
+    for<'x> BumpScope<'x, A, BumpSettings<MA, UP, GA, true, DE, SH, MCS>>: ByValueRaise,
 {
     fn x_min_align(&self) -> usize {
         MA
@@ -471,6 +474,9 @@ where
             _ => BumpAllocator::scoped_aligned::<16, _>(self, |inner| f(inner)),
         }
     }
+    fn x_by_value_with_settings(&mut self, n: usize, f: &mut dyn FnMut(&mut dyn ScopeOps)) {
+        ByValueRaise::raise(self, n, f)
+    }
     fn x_claim(&mut self, f: &mut dyn FnMut(&mut dyn ScopeOps, &dyn ScopeOps)) {
         // the original handle stays usable through `&BumpScope` while the guard lives
         let orig: &Self = &*self;
@@ -517,3 +523,37 @@ where
         }
     }
 }
+
+/// `scope.by_value().with_settings::<MIN_ALIGN = n>()` for n ≥ the current minimum alignment.
+/// (`with_settings` const-asserts `NEW_MIN_ALIGN >= MIN_ALIGN`, so only the admissible pairs may be
+/// instantiated: one impl per current alignment, listing the targets.)
+pub trait ByValueRaise {
+    fn raise(&mut self, n: usize, f: &mut dyn FnMut(&mut dyn ScopeOps));
+}
+
+macro_rules! impl_raise {
+    ($MA:literal => [$($N:literal),*]) => {
+        impl<'a, A, const UP: bool, const GA: bool, const DE: bool, const SH: bool, const MCS: usize> ByValueRaise
+            for BumpScope<'a, A, BumpSettings<$MA, UP, GA, true, DE, SH, MCS>>
+        where
+            A: TestBase + BaseAllocator<Bool<GA>>,
+        {
+            fn raise(&mut self, n: usize, f: &mut dyn FnMut(&mut dyn ScopeOps)) {
+                match n {
+                    $($N => {
+                        if let Ok(scope) = self.try_by_value() {
+                            let mut raised = scope.with_settings::<BumpSettings<$N, UP, GA, true, DE, SH, MCS>>();
+                            f(&mut raised);
+                        }
+                    })*
+                    _ => {}
+                }
+            }
+        }
+    };
+}
+impl_raise!(1 => [1, 2, 4, 8, 16]);
+impl_raise!(2 => [2, 4, 8, 16]);
+impl_raise!(4 => [4, 8, 16]);
+impl_raise!(8 => [8, 16]);
+impl_raise!(16 => [16]);
